@@ -1,6 +1,7 @@
 from core import Case, hexs
 from gen_util import *
 PID = "C15"
+SOURCE_TIE = ['tie_b36']      # theorems of coq_tie/Tie_Source.v re-checked against Gen_Source.v regenerated from /repo on every run
 DRIVER = "drv_pure"
 RULE = ("base36_encode (ptr, vector, secure_buffer) and base36_decode (vector and secure_buffer outputs reused across cases, plus a fresh vector) vs the models; "
         "all byte strings of length <= 2 exhaustively, lengths to 80 with 0..8 leading zero bytes, all-zero strings, 0xFF.., decoder on every single byte value, "
